@@ -32,41 +32,41 @@ CHECKS = {
   "C03": e2("Same bundle space; after undo, ApplyDocActions(stored) must reproduce the post-bundle snapshot.", BND, "C03"),
   "C04": e2("Bundle holes plus the crash point (target, index j, before/after) are solver variables; all j < J enumerated (J measured per bundle); natural failures included; after a raise: snapshot unchanged, schema consistent, Calculate silent.", BND + "; one fault per run at doc-action boundaries / rebuild_usercode", "C04"),
   "C05": e2("Edit histories (1 action; 2-action histories with micro pools incl. conditional lookup formulas and duplicate-key payloads) compared after every step with a fresh engine loaded without formula results.", BND + "; error cells compared as 'is an error'", "C05"),
-  "C06": e2("Same histories replayed on a second engine whose work-item order is the k-th permutation (k is a hole); user tables must be equal.", BND + "; 5 (quick) / 23 (thorough) permutation indices", "C06"),
-  "C07": e2("After every history step: fetch -> encode -> marshal -> main._decode_db_value -> fresh engine load + Calculate: no stored actions, identical snapshot.", BND + "; SQLite reduced to marshal of non-primitive cells", "C07"),
-  "C08": e2("Same bundle space incl. rejected bundles; after success and after rollback build_schema(metadata)==engine.schema, unique (table,colId), no orphan column records.", BND, "C08"),
+  "C06": e2("Same histories replayed on a second engine whose work-item order is the k-th permutation (k is a hole); user tables must be equal. The stored actions emitted under the permuted order, replayed into TableDataSet, must reproduce that engine's state.", BND + "; 5 (quick) / 23 (thorough) permutation indices", "C06"),
+  "C07": e2("After every history step: fetch -> encode -> marshal -> main._decode_db_value -> fresh engine load + Calculate: no stored actions, identical snapshot. Data columns (incl. stored error cells of trigger-formula columns) are compared exactly, formula columns with errors as errors.", BND + "; SQLite reduced to marshal of non-primitive cells", "C07"),
+  "C08": e2("Same bundle space incl. rejected bundles; after success and after rollback build_schema(metadata)==engine.schema, unique (table,colId), no orphan column records. Also after the undo of every successful bundle, after the rollback of a failed undo, and after every schema-affecting action followed by an always-failing action.", BND, "C08"),
   "C09": e2("Invariant after every successful bundle on fixtures views/summary/twoway: every metadata Ref/RefList resolves, fields match their section's table, one metadata record + raw section per user table, helper columns still used.", BND, "C09"),
   "C10": e2("Invariant after every successful bundle: no Ref/RefList cell refers to a row the bundle removed; removal-only bundles leave each RefList = old list minus removed ids (None if empty).", BND, "C10"),
   "C11": e2("Invariant on fixture twoway after every successful bundle: reverse-linked columns are symmetric.", BND + "; data<->formula switches of linked columns excluded", "C11"),
   "C12": e2("Invariant after every successful bundle: each summary table == recomputed group-by of its source (keys, uniqueness, groups ascending, no empty groups).", BND + "; Date keys by calendar day; error-valued keys not judged", "C12"),
-  "C13": e2("60 lookupRecords/lookupOne formulas (4 key shapes x 10 order specs) x 3 probes compared with filter + stable sort, before and after an edit; cell contents are holes.", "<= 4 rows; value pools; NaN and incomparable values excluded", "C13"),
+  "C13": e2("60 lookupRecords/lookupOne formulas (4 key shapes x 10 order specs) x 3 probes compared with filter + stable sort, before and after an edit; cell contents are holes. A fifth and sixth key shape use an Any-typed column holding unhashable values and a formula key column that can become an error; edits include ReplaceTableData.", "<= 4 rows; value pools; NaN and incomparable values excluded", "C13"),
   "C14": e1("find.lt/le/gt/ge/eq (one column asc/desc; two columns X,-Y; mixed int/None/str values) and PREVIOUS/NEXT/RANK with group_by on symbolic column contents, unbounded integer probes and current row; linear-scan oracle; all four obligations confirmed over all paths in the quick tier.", "stand-in table object; rows <= 3 / 3 / 2 quick, 4 / 4 / 3 thorough; cell values 0..3", "C14"),
   "C15": e2("Counter-style trigger formulas on fixture trigger; updates of 1-2 columns on 1-2 rows, adds with explicit values, schema changes; compared with a fires/does-not-fire model.", "3 rows; values pool of 4; 7 trigger configurations", "C15"),
-  "C16": e2("27 formula shapes x 8 entities x 14 new names x 3 rename paths: formula values unchanged, only NAME/STRING tokens rewritten.", "programs enumerated (finite grammar); solver = completeness bookkeeping", "C16"),
-  "C17": en("process_renames with the ACL / dropdown / trigger collectors on a bounded predicate grammar (9 shapes x 17 x 17 atoms), 6 rename scenarios, 5 new names: parsed(new) == old tree with exactly the matching references renamed; unparsable text untouched.", "text is realised at ast.parse, so the grammar is enumerated instead of symbolic; engine-level wiring not covered here", "C17"),
-  "C18": e2("All 512 dependency graphs over 3 formula columns x all 6 schedules (+ lookup variant): terminates, CircularRefError exactly on self-dependent cells, normal values elsewhere; a run that does not return is a violation.", "3 columns quick, 4 thorough (time-capped); 2 rows", "C18"),
+  "C16": e2("27 formula shapes x 8 entities x 14 new names x 3 rename paths: formula values unchanged, only NAME/STRING tokens rewritten. Each rename is also judged as the second step of a history (an earlier rename / retargeted reference in its own bundle); a data-only table reached through $ref.col chains only.", "programs enumerated (finite grammar); solver = completeness bookkeeping", "C16"),
+  "C17": en("process_renames with the ACL / dropdown / trigger collectors on a bounded predicate grammar (9 shapes x 17 x 17 atoms), 6 rename scenarios, 5 new names: parsed(new) == old tree with exactly the matching references renamed; unparsable text untouched. Engine level: a document with ACL rules in 3 orders, resources, a user-attribute lookup column, a dropdown and a trigger condition after RenameColumn / RenameTable / metadata updates (108 cases).", "text is realised at ast.parse, so the grammar is enumerated instead of symbolic; engine-level wiring not covered here", "C17"),
+  "C18": e2("All 512 dependency graphs over 3 formula columns x all 6 schedules (+ lookup variant): terminates, CircularRefError exactly on self-dependent cells, normal values elsewhere; a run that does not return is a violation. Each graph is re-judged after a second bundle that gives one column new references (quick: clears them) and after a data edit.", "3 columns quick, 4 thorough (time-capped); 2 rows", "C18"),
   "C19": e2("75 formula texts x 2 placements x payloads: other columns unchanged, engine keeps working; for texts an independent tokenize-based translation compiles, values equal exec() of that translation.", "programs enumerated; f-strings and side-effect texts: isolation only", "C19"),
-  "C20": ("other", E3 + "; plus " + E2, "(a) QF_FPBV lemmas over all doubles for get_range/prevfloat/nextfloat run on FP proxies; (b) prepare_inserts on catalogue (+) ulps lists against the four clauses; (c) position columns distinct and finite on engine runs.", "lists <= 3; keys <= 2; existing positions < 2^53; count = 1 lemma quick, 2 thorough", "C20"),
+  "C20": ("other", E3 + "; plus  Dense neighbourhoods: two rows 1..4 ulps apart (+ a third), batches of 1..6 (12) rows at the upper / lower / middle position." + E2, "(a) QF_FPBV lemmas over all doubles for get_range/prevfloat/nextfloat run on FP proxies; (b) prepare_inserts on catalogue (+) ulps lists against the four clauses; (c) position columns distinct and finite on engine runs.", "lists <= 3; keys <= 2; existing positions < 2^53; count = 1 lemma quick, 2 thorough", "C20"),
   "C21": e1e("pick_col_ident / pick_table_ident / pick_col_ident_list on names of length <= 2 (3) over a 16-symbol alphabet incl. non-ASCII, 4 avoid sets: valid, unused case-insensitively, identity on valid unused names.", "alphabet and avoid sets bounded; the single-name obligations are symbolic (confirmed over all paths); pick_col_ident_list over 3 names is enumerated", "C21"),
   "C22": e1e("Every usertypes type x input kind: total, lands in the type/alt-text/same error, idempotent. Symbolic: ints, bool/None, rationals, strs (len <= 1; 2 thorough), lists. Enumerated: all strings of <= 2 characters over 13 interesting characters, boundary ints, special floats, numeric/date/JSON-looking strings, lists and tuples of <= 2 items, dates, special objects, Blob.", "per-kind obligations; type index realised; symbolic str/list obligations are counterexample search (not exhausted)", "C22"),
-  "C23": e2("All ordered pairs of 12 column types on 5 columns with 2 symbolic cell contents from a pool: cells == new type's conversion of the old raw values; no other data cell changes.", "fixture basic (+ twoway thorough); pool of 13 values", "C23"),
-  "C24": e1e("encode_object: encoded form marshal-safe (exact builtin types; marshal.dumps succeeds on concrete runs) and encode(decode(encode(v))) == encode(v). Symbolic and exhausted: every int within 2 of the 32-bit range, every str of len <= 5 (8), bool/None, lists/tuples of <= 3 ints/None, lists of strs, dicts of ints. Counterexample search: ints beyond 32 bits, floats, mixed containers. Enumerated: 54 special values bare and inside 4 containers, boundary ints.", "containers len <= 3, depth <= 2 (+ one 3000-deep and one recursive list)", "C24"),
+  "C23": e2("All ordered pairs of 12 column types on 5 columns with 2 symbolic cell contents from a pool: cells == new type's conversion of the old raw values; no other data cell changes. Numbers -> Text are also compared with an independently written reference of the documented formatting rule.", "fixture basic (+ twoway thorough); pool of 13 values", "C23"),
+  "C24": e1e("encode_object: encoded form marshal-safe (exact builtin types; marshal.dumps succeeds on concrete runs) and encode(decode(encode(v))) == encode(v). Symbolic and exhausted: every int within 2 of the 32-bit range, every str of len <= 5 (8), bool/None, lists/tuples of <= 3 ints/None, lists of strs, dicts of ints. Counterexample search: ints beyond 32 bits, floats, mixed containers. Enumerated: 54 special values bare and inside 4 containers, boundary ints. Engine level: 56 formulas' values (records, record sets read back from reference-list cells, lookups, containers, odd objects) through the replies main.py builds.", "containers len <= 3, depth <= 2 (+ one 3000-deep and one recursive list)", "C24"),
   "C25": e1e("JSON-reading migrations (found by source scan) run on stored JSON values of every shape from a catalogue (scalars, lists, objects, malformed text; enumerated) and, in the thorough tier, on a symbolic JSON value through a json.loads stub: total; plus create_migrations from every start version 0..SCHEMA_VERSION reaching the current schema.", "7 scenarios; one user table", "C25"),
   "C26": e2("Bundles of 1-3 actions from a pool of 16 temp-id actions vs a reference interpretation of temporary ids; undefined negative reference values must be rejected without trace.", "two tables; bundle length <= 3", "C26"),
   "C27": e2("(existing rows, action, id list of length <= 3 from a pool of 7) for AddRecord/BulkAddRecord/ReplaceTableData: returned ids == created rows, distinct, automatic ids greater than existing; invalid requests rejected without change.", "4 existing-row sets", "C27"),
-  "C28": e2("BulkAddOrUpdateRecord/AddOrUpdateRecord on 3 table contents x require/col_values/options pools vs a 40-line reference upsert.", "lists <= 2", "C28"),
-  "C29": e2("8 read-only calls x tables x columns x rows x 20 autocomplete texts on a restored document with a side-effecting formula: snapshot unchanged, next Calculate silent.", "fixture views + lookupOrAddDerived formula", "C29"),
-  "C31": e2("Record-edit bundles on documents with formulas and summary tables; direct flags checked against the property's clauses.", BND, "C31"),
+  "C28": e2("BulkAddOrUpdateRecord/AddOrUpdateRecord on 3 table contents x require/col_values/options pools vs a 40-line reference upsert. Require lists include value-equal keys of different spelling (1 / 1.0 / True).", "lists <= 2", "C28"),
+  "C29": e2("8 read-only calls x tables x columns x rows x 20 autocomplete texts on a restored document with a side-effecting formula: snapshot unchanged, next Calculate silent. The call follows one of 6 prior bundles (add, update, removal, ...); one formula's side effect (lookupOrAddDerived) is followed by an error.", "fixture views + lookupOrAddDerived formula", "C29"),
+  "C31": e2("Record-edit bundles on documents with formulas and summary tables; direct flags checked against the property's clauses. In bundles of record edits no schema action (conversion of an empty, explicitly typed column while data is entered) may be direct.", BND, "C31"),
   "C32": en("parse_file on grids written by the real csv module: rectangular <= 3x3 over 6 cell values, ragged shapes (k <= 3 rows of width w1 then rows of widths w2, w3), and the 100-row header-sample boundary: equal column lengths, one entry per data row, every non-empty cell at its place.", "widths <= 3; whitespace-only cells count as empty; the importer's regular expressions cannot be followed on symbolic strings, so cells are enumerated", "C32"),
-  "C33": e1e("import_json.dumps with 6 include/exclude options: equal column lengths, rows per item, Ref ids in range, every non-null scalar exactly once. Symbolic: flat objects (20 key-set shapes, unbounded int / short str / null values), top-level scalar lists and single scalars. Enumerated: 1-2 rows out of 13 nested-object shapes and 8 array shapes x options.", "keys from 4; rows <= 2; a key is an object in every row or in none", "C33"),
-  "C34": ("other", E3, "ts_to_dt/dt_to_ts round trip, date round trip and 'local time gets an offset in use' for ALL integer timestamps |ts| <= 9e9 s, per zone (62 zones quick, all 594 thorough): one obligation per (zone, property), unsat on every path.", "integer-microsecond datetime model; zones enumerated", "C34"),
+  "C33": e1e("import_json.dumps with 6 include/exclude options: equal column lengths, rows per item, Ref ids in range, every non-null scalar exactly once. Symbolic: flat objects (20 key-set shapes, unbounded int / short str / null values), top-level scalar lists and single scalars. Enumerated: 1-2 rows out of 13 nested-object shapes and 8 array shapes x options. Records in which one key is an object in one record and an array in another are reconstructed from the produced tables alone and compared with the input.", "keys from 4; rows <= 2; a key is an object in every row or in none", "C33"),
+  "C34": ("other", E3, "ts_to_dt/dt_to_ts round trip, date round trip and 'local time gets an offset in use' for ALL integer timestamps |ts| <= 9e9 s, per zone (62 zones quick, all 594 thorough): one obligation per (zone, property), unsat on every path. Instants where the integer model and the real code disagree are evaluated on the real code directly.", "integer-microsecond datetime model; zones enumerated", "C34"),
   "C35": ("other", E3, "Schedule.series on symbolic integer start/end for 30+ fixed-length-unit specs x counts 0..3(4) vs the reference occurrence set as an integer formula; 24 invalid specs raise ValueError.", "month/year units and tz-aware starts outside the claim", "C35"),
   "C36": e1("treeview.fix_indents on symbolic indent lists (len <= 4 quick / 5 thorough, unbounded values) and removal flags: valid tree, never deeper, exactly the violating pages change.", "list length bounded", "C36"),
   "C37": e1e("Replacer / Combiner / nested Replacer: output == direct application; mapped-back patches cover the same source characters; spanning patches refused. Symbolic text (len <= 3 over 'ab$'; 4 thorough), patches and offsets; the Combiner and Replacer-over-Replacer spaces are also enumerated completely for texts one character shorter.", "replacement len <= 1 (2 thorough); zero-width deletion boundary ambiguity accepted", "C37"),
   "C38": ("other", E4, "schema.py/gen_js_schema.py/usertypes defaults vs schema.ts/gristTypes.ts as z3 String->String functions; exists-key-with-different-image query per table (5 tables) + byte comparison with the generator output.", "finite tables; regex readers of the .ts files", "C38"),
   "C39": e2("RenameChoices on (Choice cells, ChoiceList cells, filter text, column, rename map) cubes: exactly the mapped values renamed simultaneously in cells and that column's filters, everything else unchanged.", "2 symbolic rows + a removed row; 11 maps; 5 filters", "C39"),
   "C40": e1("444 predicate expressions (depth <= 2) x symbolic values of $a,$b,user.x (unbounded ints), $c (bool), $s (str len <= 2): parse tree JSON-serialisable and evaluates like Python; 39 non-subset texts raise SyntaxError.", "expression index realised; Python node semantics", "C40"),
-  "C41": e2("fetch_table(query) on (cells of 2 columns, query lists incl. unhashable values, flags) cubes vs a naive filter.", "3 rows; pools of 6/5 cells", "C41"),
+  "C41": e2("fetch_table(query) on (cells of 2 columns, query lists incl. unhashable values, flags) cubes vs a naive filter. Queries on the row id after removals and re-adds.", "3 rows; pools of 6/5 cells", "C41"),
 }
 NOT_APPLICABLE = {
   "C30": "The quantified variable is CPython's per-process hash seed, fixed before repository code runs; set/dict iteration order cannot be made a solver variable by executing /repo's functions symbolically. Cross-process diffing is sampling, a different technique.",
